@@ -52,21 +52,25 @@ fn main() {
         }
     });
     let (cmd, a) = args();
+    // every family module exposes `dispatch(cmd, args) -> Option<summary>`
+    let fams: &[fn(&str, &HashMap<String, String>) -> Option<serde_json::Value>] = &[
+        fam_mailbox::dispatch,
+        fam_lifecycle::dispatch,
+    ];
+    for f in fams {
+        if let Some(summary) = f(&cmd, &a) {
+            println!("{summary}");
+            return;
+        }
+    }
+    eprintln!("unknown command {cmd}");
+    std::process::exit(2);
+}
+
+/// common arguments: --out <file> --tier quick|thorough --seed <n>
+pub fn common(a: &HashMap<String, String>) -> (String, String, u64) {
     let out = a.get("out").cloned().unwrap_or_else(|| "/dev/null".into());
     let tier = a.get("tier").cloned().unwrap_or_else(|| "quick".into());
     let seed: u64 = a.get("seed").and_then(|s| s.parse().ok()).unwrap_or(1);
-    let summary = match cmd.as_str() {
-        "mailbox" => fam_mailbox::batch(&out, &tier, seed),
-        "lifecycle" => fam_lifecycle::batch(&out, &tier, seed),
-        "mailbox-replay" => {
-            let shape = a.get("shape-str").cloned().unwrap_or_default();
-            let sched: Vec<usize> = serde_json::from_str(a.get("sched").map(|s| s.as_str()).unwrap_or("[]")).unwrap_or_default();
-            fam_mailbox::replay(&shape, sched, &out)
-        }
-        _ => {
-            eprintln!("unknown command {cmd}");
-            std::process::exit(2);
-        }
-    };
-    println!("{summary}");
+    (out, tier, seed)
 }
